@@ -12,6 +12,7 @@ import subprocess
 import sys
 
 FIXES = {  # subject prefix -> properties whose check must fire when the fix is reverted
+    "fix: tokenize frozensets": ["C12"],
     "fix: config.set records": ["C17"],
     "fix: dask.core.get accepts": ["C01"],
     "fix: from_array(name=True)": ["C13"],
